@@ -628,6 +628,12 @@ pub fn c07_views(ctx: &mut Ctx, t: &Term) {
     }
     Err(e) => report_panic(ctx, t, "rope()", &e),
   }
+  // the rope is a view of the same string in every way a rope can be read, not only when rendered
+  match observe::guarded(|| rope_view_mismatch(&src.rope(), &text)) {
+    Ok(None) => {}
+    Ok(Some(d)) => fail(ctx, "rope_view_vs_source", d),
+    Err(e) => report_panic(ctx, t, "rope() readers", &e),
+  }
   match observe::guarded(|| src.size()) {
     Ok(n) => {
       if n != buffer.len() {
@@ -667,6 +673,53 @@ pub fn c07_views(ctx: &mut Ctx, t: &Term) {
   ctx.outcome(&(buffer.len(), text.len(), model::all_utf8(t)));
   ctx.transitions += 5;
   ctx.traces_validated += 1;
+}
+
+/// Reads `r` through every positional reader and compares with the string it is meant to be.
+pub fn rope_view_mismatch(r: &rspack_sources::Rope, m: &str) -> Option<String> {
+  if r.len() != m.len() {
+    return Some(format!("rope().len()={} but source().len()={} ({m:?})", r.len(), m.len()));
+  }
+  if r.is_empty() != m.is_empty() {
+    return Some(format!("rope().is_empty()={} for {m:?}", r.is_empty()));
+  }
+  if !(*r == *m) || !(*r == m) || !(*r == rspack_sources::Rope::from(m)) {
+    return Some(format!("rope() != source() by PartialEq ({m:?})"));
+  }
+  if r.to_bytes().as_ref() != m.as_bytes() {
+    return Some(format!("rope().to_bytes() differs from {m:?}"));
+  }
+  for i in 0..=m.len() {
+    if r.get_byte(i) != m.as_bytes().get(i).copied() {
+      return Some(format!("rope().get_byte({i})={:?} in {m:?}", r.get_byte(i)));
+    }
+  }
+  if r.char_indices().collect::<Vec<_>>() != m.char_indices().collect::<Vec<_>>() {
+    return Some(format!("rope().char_indices() differs from those of {m:?}"));
+  }
+  let lines: Vec<String> = r.lines().map(|l| l.to_string()).collect();
+  if lines != crate::rope_mc::model_lines(m) {
+    return Some(format!("rope().lines()={lines:?} for {m:?}"));
+  }
+  let bs: Vec<usize> = (0..=m.len()).filter(|i| m.is_char_boundary(*i)).collect();
+  for &a in &bs {
+    for &e in &bs {
+      if a <= e {
+        let s = r.byte_slice(a..e);
+        if s.to_string() != m[a..e] || s.len() != e - a {
+          return Some(format!("rope().byte_slice({a}..{e}) is {:?} (len {}) in {m:?}", s.to_string(), s.len()));
+        }
+        // a slice of the slice (what an enclosing ReplaceSource does with it)
+        if e - a >= 2 && m.is_char_boundary(a + 1) {
+          let s2 = s.byte_slice(1..e - a);
+          if s2.to_string() != m[a + 1..e] || s2.len() != e - a - 1 {
+            return Some(format!("rope().byte_slice({a}..{e}).byte_slice(1..) is {:?} (len {}) in {m:?}", s2.to_string(), s2.len()));
+          }
+        }
+      }
+    }
+  }
+  None
 }
 
 /// Writers with faults. Returns number of fault runs.
@@ -1081,9 +1134,14 @@ fn first_diff(a: &[A4], b: &[A4], col_may_advance: bool) -> Option<usize> {
 // ---------------------------------------------------------------- C17 / C19: every method returns normally
 
 /// Call every Source method and every streaming mode; any panic is a violation.
+/// A single allocation above this size while working on a tree of a dozen characters means the
+/// request was sized by a value taken from the input (an index or position of a wild map).
+pub const ALLOC_LIMIT: usize = 16 << 20;
+
 pub fn all_methods_return(ctx: &mut Ctx, t: &Term) {
   use std::hash::{Hash, Hasher};
   ctx.evaluations += 1;
+  crate::reset_max_alloc();
   let src = match observe::guarded(|| t.build()) {
     Ok(s) => s,
     Err(e) => return report_panic(ctx, t, "build", &e),
@@ -1130,6 +1188,17 @@ pub fn all_methods_return(ctx: &mut Ctx, t: &Term) {
     }
   }
   ctx.outcome(&h.finish());
+  let big = crate::max_alloc();
+  if big > ALLOC_LIMIT {
+    ctx.violation(
+      "allocation_sized_by_input_value",
+      String::new(),
+      None,
+      || case_json(t),
+      t.size(),
+      format!("a single allocation of {big} bytes was requested while streaming / mapping a tree whose text has {} bytes: its size follows an index or position of the attached map (an index near u32::MAX would request tens of gigabytes and abort)", model::model_text(t).len()),
+    );
+  }
   if t.depth() > 0 || matches!(t, Term::Sms(_)) {
     ctx.nontrivial += 1;
   }
